@@ -235,6 +235,25 @@ def run(ctx):
             evaluate("dtw_barycenter.dba_loop(c=None, thr=None, use_c=%s)" % eng_c,
                      lambda s: dtw_barycenter.dba_loop(s, None, max_it=2, thr=None, use_c=eng_c), nargs, eng_c,
                      canonical="list_nd")
+        # multivariate barycenter averaging: series and initial average in several memory layouts
+        dd = rng.choice([2, 3])
+        Ln = rng.randint(2, 5)
+        nser = rng.randint(2, 4)
+        pts = [[[float(rng.randint(-3, 3)) for _ in range(dd)] for _ in range(Ln)] for _ in range(nser)]
+        c0 = [[float(rng.randint(-2, 2)) for _ in range(dd)] for _ in range(rng.randint(2, 4))]
+        forms = {"list_nd": [np.array(p_) for p_ in pts], "list_F": [np.asfortranarray(np.array(p_)) for p_ in pts],
+                 "list_T": [np.array(np.array(p_).T.tolist()).T for p_ in pts], "3d": np.array(pts),
+                 "3d_F": np.asfortranarray(np.array(pts))}
+        margs = {"list_nd": (forms["list_nd"], np.array(c0))}
+        for cform, cobj in (("C", np.array(c0)), ("F", np.asfortranarray(np.array(c0))),
+                            ("T", np.array(np.array(c0).T.tolist()).T)):
+            for k_, v_ in forms.items():
+                if not (k_ == "list_nd" and cform == "C"):
+                    margs["%s|c_%s" % (k_, cform)] = (v_, cobj)
+        for eng_c in (False, True):
+            evaluate("dtw_barycenter.dba_loop(ndim, use_c=%s)" % eng_c,
+                     lambda s, cc: dtw_barycenter.dba_loop(s, cc, max_it=2, use_c=eng_c), margs, eng_c,
+                     canonical="list_nd")
         # subsequence alignment / search with a shared options dictionary
         sq = {k: (r1[k], r2[k]) for k in ("nd", "strided", "reversed", "column", "array", "list")}
         evaluate("subsequence_alignment", lambda a, b: subsequence_alignment(a, b).matching_function(), sq, False)
